@@ -656,12 +656,78 @@ def check_frozen_chain(case: t.Any, ctx: Ctx) -> None:
                 x.__pane_set__.discard(fname) if fname not in before[1] else None
 
 
+# ---- repr after a repr that failed ---------------------------------------------------------------------------------------------------
+#
+# "repr lists the repr-fields in order" is a statement about the instance as it is *now*: a repr which raised earlier (a field that
+# was not set yet, a field value whose own repr raised) leaves nothing behind.
+
+def reprfail_cases(shard: int, nshards: int) -> t.Iterator[t.Any]:
+    i = 0
+    for trigger in ('unset-init-false-field', 'field-value-repr-raises'):
+        for times in (1, 3):
+            for where in ('bare', 'in-list', 'as-field'):
+                if i % nshards == shard:
+                    yield [trigger, times, where]
+                i += 1
+
+
+def check_reprfail(case: t.Any, ctx: Ctx) -> None:
+    import copy
+    import pane
+    (trigger, times, where) = case
+
+    class Moody:
+        def __init__(self) -> None:
+            self.bad = True
+
+        def __repr__(self) -> str:
+            if self.bad:
+                raise RuntimeError('no repr today')
+            return 'Moody()'
+
+        def __eq__(self, other: t.Any) -> bool:
+            return isinstance(other, Moody)
+
+        __hash__ = None     # type: ignore
+    if trigger == 'unset-init-false-field':
+        Account = type('Account', (pane.PaneBase,), {'__annotations__': {'owner': str, 'balance': int}, 'balance': pane.field(init=False)}, frozen=False)
+        a = Account(owner='ann')
+    else:
+        Account = type('Account', (pane.PaneBase,), {'__annotations__': {'owner': str, 'balance': t.Any}}, frozen=False)
+        a = Account.make_unchecked(owner='ann', balance=Moody())
+    Holder = type('Holder', (pane.PaneBase,), {'__annotations__': {'acct': t.Any}})
+    outer: t.Any = {'bare': a, 'in-list': [a], 'as-field': Holder.make_unchecked(acct=a)}[where]
+    ctx.label(f"repr-after-failure:{trigger}", where)
+    ctx.nontrivial(True)
+    raised = 0
+    for _ in range(times):
+        try:
+            repr(outer)
+        except (AttributeError, RuntimeError):
+            raised += 1
+    if raised != times:
+        return      # (whether such an instance can be printed at all is not this check's subject)
+    if trigger == 'unset-init-false-field':
+        a.balance = 10
+        want = "Account(owner='ann', balance=10)"
+    else:
+        a.balance.bad = False
+        want = "Account(owner='ann', balance=Moody())"
+    ctx.evaluated(2)
+    got = repr(a)
+    got_copy = repr(copy.copy(a))
+    if got != want or got_copy != want:
+        ctx.fail('repr', 'repr-after-failed-repr', f"class Account(owner: str, balance), not frozen; repr raised {times} time(s) ({trigger}, {where}); afterwards repr is "
+                 f"{got!r}, of an equal copy {got_copy!r}; the repr-fields in order give {want!r}")
+
+
 def suites(tier: str) -> t.List[Suite]:
     big = tier == 'thorough'
     return [
         Suite('cube', check, cases=cube_cases, exhaustive=True, budget_s=300, render=render),
         Suite('generic', check_generic, cases=generic_cases, exhaustive=True, budget_s=60),
         Suite('flags', check, strategy=cases, examples=6000 if big else 400, budget_s=300 if big else 30, render=render),
+        Suite('repr-after-failure', check_reprfail, cases=reprfail_cases, exhaustive=True, budget_s=30, render=lambda c: {'trigger': c[0], 'failed reprs': c[1], 'where': c[2]}),
         Suite('frozen-chains', check_frozen_chain, cases=frozen_cases, exhaustive=True, budget_s=30, render=lambda c: {'chain': c[0], 'generic': c[1]}),
         Suite('partial-order', check_partial, strategy=po_cases, examples=3000 if big else 300, budget_s=60 if big else 10,
               render=lambda c: {'compare flags (x: float, s: FrozenSet[int], n: int)': c[0], 'value indices': c[1]}),
